@@ -49,7 +49,7 @@ fn variants(plan: &str, t: Tier) -> Vec<&'static str> {
     v
 }
 
-fn boot(plan: &str, _t: Tier) -> BootCfg {
+fn boot(plan: &str, _v: &str, _t: Tier) -> BootCfg {
     let mut c = BootCfg::new(plan);
     // immortal garbage accumulates over the run
     c.heap_bytes = if plan == "NoGC" { 3 << 30 } else { 256 << 20 };
